@@ -18,7 +18,6 @@ use std::fmt;
 use std::str::FromStr;
 
 use crate::message::Qtype;
-use crate::util::Caseless;
 
 ////////////////////////////////////////////////////////////////////////
 // RR TYPES                                                           //
@@ -80,43 +79,49 @@ impl FromStr for Type {
     type Err = &'static str;
 
     fn from_str(text: &str) -> Result<Self, Self::Err> {
-        match Caseless(text) {
-            Caseless("A") => Ok(Self::A),
-            Caseless("NS") => Ok(Self::NS),
-            Caseless("MD") => Ok(Self::MD),
-            Caseless("MF") => Ok(Self::MF),
-            Caseless("CNAME") => Ok(Self::CNAME),
-            Caseless("SOA") => Ok(Self::SOA),
-            Caseless("MB") => Ok(Self::MB),
-            Caseless("MG") => Ok(Self::MG),
-            Caseless("MR") => Ok(Self::MR),
-            Caseless("NULL") => Ok(Self::NULL),
-            Caseless("WKS") => Ok(Self::WKS),
-            Caseless("PTR") => Ok(Self::PTR),
-            Caseless("HINFO") => Ok(Self::HINFO),
-            Caseless("MINFO") => Ok(Self::MINFO),
-            Caseless("MX") => Ok(Self::MX),
-            Caseless("TXT") => Ok(Self::TXT),
-            Caseless("AAAA") => Ok(Self::AAAA),
-            Caseless("SRV") => Ok(Self::SRV),
-            Caseless("OPT") => Ok(Self::OPT),
-            Caseless("TSIG") => Ok(Self::TSIG),
-            _ => {
-                if text
-                    .get(0..4)
-                    .map_or(false, |prefix| prefix.eq_ignore_ascii_case("TYPE"))
-                {
-                    text[4..]
-                        .parse::<u16>()
-                        .map(Self::from)
-                        .or(Err("type value is not a valid unsigned 16-bit integer"))
-                } else {
-                    Err("unknown type")
-                }
-            }
+        if let Some((_, rr_type)) = MNEMONICS
+            .iter()
+            .find(|(mnemonic, _)| text.eq_ignore_ascii_case(mnemonic))
+        {
+            Ok(*rr_type)
+        } else if text
+            .get(0..4)
+            .map_or(false, |prefix| prefix.eq_ignore_ascii_case("TYPE"))
+        {
+            text[4..]
+                .parse::<u16>()
+                .map(Self::from)
+                .or(Err("type value is not a valid unsigned 16-bit integer"))
+        } else {
+            Err("unknown type")
         }
     }
 }
+
+/// The mnemonics recognized by the [`FromStr`] implementation of
+/// [`Type`]. They are matched ASCII-case-insensitively.
+const MNEMONICS: &[(&str, Type)] = &[
+    ("A", Type::A),
+    ("NS", Type::NS),
+    ("MD", Type::MD),
+    ("MF", Type::MF),
+    ("CNAME", Type::CNAME),
+    ("SOA", Type::SOA),
+    ("MB", Type::MB),
+    ("MG", Type::MG),
+    ("MR", Type::MR),
+    ("NULL", Type::NULL),
+    ("WKS", Type::WKS),
+    ("PTR", Type::PTR),
+    ("HINFO", Type::HINFO),
+    ("MINFO", Type::MINFO),
+    ("MX", Type::MX),
+    ("TXT", Type::TXT),
+    ("AAAA", Type::AAAA),
+    ("SRV", Type::SRV),
+    ("OPT", Type::OPT),
+    ("TSIG", Type::TSIG),
+];
 
 impl fmt::Debug for Type {
     fn fmt(&self, f: &mut fmt::Formatter) -> fmt::Result {
